@@ -47,7 +47,7 @@ func genScript(rt *rapid.T, race bool) Script {
 	s.Modern = rapid.IntRange(0, 3).Draw(rt, "modern") == 0
 	n := rapid.IntRange(1, 30).Draw(rt, "n")
 	for i := 0; i < n; i++ {
-		st := Step{Kind: rapid.SampledFrom([]string{"ccall", "ccall", "scall", "nested", "nested", "notify", "snotify", "release", "release", "close", "close", "close", "wait", "fail", "fail", "vanish", "late", "late", "latenotify", "sleep", "rejectnotes", "halfvanish", "badnotify", "sub", "unsub"}).Draw(rt, "kind")}
+		st := Step{Kind: rapid.SampledFrom([]string{"ccall", "ccall", "scall", "nested", "nested", "notify", "snotify", "release", "release", "close", "close", "close", "wait", "fail", "fail", "vanish", "late", "late", "latenotify", "sleep", "rejectnotes", "halfvanish", "badnotify", "sub", "sub", "unsub"}).Draw(rt, "kind")}
 		st.Side = rapid.SampledFrom([]string{"client", "server"}).Draw(rt, "side")
 		st.I = rapid.IntRange(0, 7).Draw(rt, "i")
 		if race {
@@ -57,19 +57,24 @@ func genScript(rt *rapid.T, race bool) Script {
 	}
 	// a shape generated on purpose (2026-07-28 sessions, where every subscription is a request parked on the
 	// server): several subscriptions opened, some of them ended in a generated order, then a Close
-	if rapid.IntRange(0, 4).Draw(rt, "sub_macro") == 0 {
+	if k := rapid.IntRange(0, 5).Draw(rt, "sub_macro"); k == 0 || (race && k == 1) {
 		s.Modern = true
 		order := rapid.Permutation([]int{0, 1, 2, 3}).Draw(rt, "sub_order")
 		nsub := rapid.IntRange(2, 4).Draw(rt, "nsub")
 		var macro []Step
 		for _, r := range order[:nsub] {
-			macro = append(macro, Step{Kind: "sub", I: r})
+			// (race variant: a subscription may still be on its way when the next step is taken)
+			macro = append(macro, Step{Kind: "sub", I: r, NoWait: race && rapid.IntRange(0, 2).Draw(rt, "sub_nowait") == 0})
 		}
 		ends := rapid.Permutation(order[:nsub]).Draw(rt, "unsub_order")
 		for _, r := range ends[:rapid.IntRange(1, nsub).Draw(rt, "nunsub")] {
 			macro = append(macro, Step{Kind: "unsub", I: r})
 		}
 		macro = append(macro, Step{Kind: "close", Side: rapid.SampledFrom([]string{"server", "server", "client"}).Draw(rt, "macro_close")})
+		if race && rapid.Bool().Draw(rt, "close_during_subscribe") {
+			// a Close that starts while a Subscribe is still on its way
+			macro = []Step{{Kind: "sub", I: order[0], NoWait: true}, {Kind: "close", Side: rapid.SampledFrom([]string{"client", "client", "server"}).Draw(rt, "cds_side")}}
+		}
 		pos := rapid.IntRange(0, min(len(s.Steps), 5)).Draw(rt, "macro_pos")
 		s.Steps = append(s.Steps[:pos:pos], append(macro, s.Steps[pos:]...)...)
 	}
@@ -247,6 +252,18 @@ func runInBubble(s Script) (res vt.Result) {
 	}
 	server.AddReceivingMiddleware(mw("server"))
 	client.AddReceivingMiddleware(mw("client"))
+	// A sending middleware that takes a moment (1 ms, virtual) on the way back from a subscriptions/listen
+	// request, as a tracing or metrics layer does: a Close started meanwhile meets a subscription that is
+	// already on the wire but has not been handed back to its caller.
+	client.AddSendingMiddleware(func(next mcp.MethodHandler) mcp.MethodHandler {
+		return func(ctx context.Context, method string, req mcp.Request) (mcp.Result, error) {
+			out, err := next(ctx, method, req)
+			if method == "subscriptions/listen" {
+				time.Sleep(time.Millisecond)
+			}
+			return out, err
+		}
+	})
 
 	a, b := memio.NewPipe() // a: server end, b: client end
 	a.OnClose = func() { w.mu.Lock(); w.transportClosed["server"] = w.tick(); w.mu.Unlock() }
